@@ -29,7 +29,7 @@ m = {
     "version": 1,
     "setup_cmd": "./setup.sh",
     "hooks": {"guard": "UBERJOB_VERIF", "enable": "no source hooks: the harness instruments /repo from outside (monkeypatching, sys.setprofile/settrace) with PYTHONPATH=/repo/src",
-              "baseline_off_cmd": "cd /repo && /venv/bin/python -m pytest -ra -q -p no:cacheprovider --timeout=900 --continue-on-collection-errors",
+              "baseline_off_cmd": "cd /repo && PYTHONPATH=/repo/src /venv/bin/python -m pytest -ra -q -p no:cacheprovider --timeout=900 --continue-on-collection-errors",
               "source_commits": [], "add_only": True},
     "engines": [{"name": "coq-proof+correspondence", "path": "/verif/check", "serves_properties": [c["property_id"] for c in checks],
                  "kind_free_text": "Coq development under coq/theories (Props/Cxx.v holds the property theorems) + Python correspondence harness under harness/"}],
